@@ -2,6 +2,7 @@ package rules
 
 import (
 	"go/ast"
+	"sort"
 	"go/token"
 	"go/types"
 	"strings"
@@ -137,12 +138,50 @@ func chanOpsOf(f *ssa.Function, cr chanRoles) []chanOp {
 	return out
 }
 
+// chanOpMethods: the methods of Chan that operate the Go channel themselves
+// (send / receive), by SSA function: the three of the API and any unexported
+// helper that one of them hands the operation to.
+func chanOpMethods(p *core.Program, cr chanRoles) (recv, send map[*ssa.Function]bool) {
+	recv, send = map[*ssa.Function]bool{}, map[*ssa.Function]bool{}
+	for _, m := range core.Methods(cr.T) {
+		sf := p.SSAFunc(m)
+		if sf == nil || sf.Blocks == nil {
+			continue
+		}
+		for _, o := range chanOpsOf(sf, cr) {
+			if o.send {
+				send[sf] = true
+			} else {
+				recv[sf] = true
+			}
+		}
+	}
+	return
+}
+
 func c10r1(c *core.Ctx) {
 	p := c.P
 	cr := resolveChan(p)
 	want := map[string]bool{"Send": true, "Receive": false, "Next": false}
-	for _, name := range []string{"Next", "Receive", "Send"} {
-		m := core.MustMethod(cr.T, name)
+	recvM, sendM := chanOpMethods(p, cr)
+	names := []string{"Next", "Receive", "Send"}
+	// (an unexported method that does the operation for them is held to the same)
+	for _, set := range []map[*ssa.Function]bool{recvM, sendM} {
+		var extra []string
+		for f := range set {
+			if _, api := want[f.Name()]; !api && f.Name() != "Close" {
+				want[f.Name()] = set[f] && sendM[f]
+				extra = append(extra, f.Name())
+			}
+		}
+		sort.Strings(extra)
+		names = append(names, extra...)
+	}
+	for _, name := range names {
+		m := core.Method(cr.T, name)
+		if m == nil {
+			continue
+		}
 		sf := p.SSAFunc(m)
 		ops := chanOpsOf(sf, cr)
 		// delegation to a sibling (Next -> Receive) counts as that sibling's single operation
@@ -151,7 +190,7 @@ func c10r1(c *core.Ctx) {
 			for _, in := range b.Instrs {
 				if call, ok := in.(*ssa.Call); ok {
 					if callee := call.Call.StaticCallee(); callee != nil {
-						if o, _ := callee.Object().(*types.Func); o != nil && core.RecvNamed(o) == cr.T && (o.Name() == "Receive" || o.Name() == "Send" || o.Name() == "Next") {
+						if o, _ := callee.Object().(*types.Func); o != nil && core.RecvNamed(o) == cr.T && (o.Name() == "Receive" || o.Name() == "Send" || o.Name() == "Next" || recvM[callee] || sendM[callee]) {
 							delegates++
 						}
 					}
@@ -198,6 +237,33 @@ func c10r1(c *core.Ctx) {
 		if f.Parent() != nil {
 			name = f.Parent().Name()
 		}
+		// an unexported method of Chan that does the operation for the allowed ones, and for nobody else
+		if (recvM[f] || sendM[f]) && !ast.IsExported(name) && f.Signature.Recv() != nil && core.NamedOf(f.Signature.Recv().Type()) == cr.T {
+			onlyAllowed, callers := true, 0
+			for g := range p.AllFunctions() {
+				if g.Pkg != sp || g.Blocks == nil {
+					continue
+				}
+				for _, gb := range g.Blocks {
+					for _, gin := range gb.Instrs {
+						if gc, ok := gin.(ssa.CallInstruction); ok && gc.Common().StaticCallee() == f {
+							callers++
+							gn := g.Name()
+							if g.Parent() != nil {
+								gn = g.Parent().Name()
+							}
+							if !allowed[gn] || g.Signature.Recv() == nil {
+								onlyAllowed = false
+							}
+						}
+					}
+				}
+			}
+			if onlyAllowed && callers > 0 {
+				c.Pass(core.SSAName(f)+"|touches-channel-field", p.Pos(f.Pos()), name+" does the channel operation for Send/Receive/Next only")
+				continue
+			}
+		}
 		c.Check(allowed[name], core.SSAName(f)+"|touches-channel-field", p.Pos(f.Pos()), "only Send/Receive/Next/Close/Value and the constructor use the Go channel of a Chan (another user could consume or inject values behind the script's back)")
 	}
 }
@@ -224,8 +290,23 @@ func blockInCycle(b *ssa.BasicBlock) bool {
 func c10r2(c *core.Ctx) {
 	p := c.P
 	cr := resolveChan(p)
-	for _, name := range []string{"Next", "Receive"} {
-		m := core.MustMethod(cr.T, name)
+	recvM, _ := chanOpMethods(p, cr)
+	r2names := []string{"Next", "Receive"}
+	{
+		var extra []string
+		for f := range recvM {
+			if f.Name() != "Next" && f.Name() != "Receive" {
+				extra = append(extra, f.Name())
+			}
+		}
+		sort.Strings(extra)
+		r2names = append(r2names, extra...)
+	}
+	for _, name := range r2names {
+		m := core.Method(cr.T, name)
+		if m == nil {
+			continue
+		}
 		sf := p.SSAFunc(m)
 		// values that carry the received object: channel receives and results of sibling Receive/Next
 		var vals []ssa.Value
@@ -238,7 +319,7 @@ func c10r2(c *core.Ctx) {
 			for _, in := range b.Instrs {
 				if call, ok := in.(*ssa.Call); ok {
 					if callee := call.Call.StaticCallee(); callee != nil {
-						if o, _ := callee.Object().(*types.Func); o != nil && core.RecvNamed(o) == cr.T && (o.Name() == "Receive" || o.Name() == "Next") {
+						if o, _ := callee.Object().(*types.Func); o != nil && core.RecvNamed(o) == cr.T && (o.Name() == "Receive" || o.Name() == "Next" || recvM[callee]) {
 							if refs := call.Referrers(); refs != nil {
 								for _, r := range *refs {
 									if e, ok := r.(*ssa.Extract); ok && e.Index == 0 {
